@@ -151,6 +151,13 @@ func (g *G) IPv4Packet(maxData int) (*protocol.IPv4, []byte, string) {
 	}
 	opts := g.Bytes("ipv4_opts", 4*nopt)
 	ip.IHL = uint8(5 + nopt)
+	wireIHL := ip.IHL
+	if nopt == 0 && !g.Avoid["ipv4_ihl_default"] && g.Chance("ipv4_ihl_left_to_library", 1, 3) {
+		// a header without options whose length field the caller never touches: NewIPv4 leaves it 0 and the
+		// library's size function raises it to the minimum of 5 words before anything is written
+		ip.IHL = 0
+		g.Label("ipv4_header_length_left_at_constructor_default")
+	}
 	ip.Options = *util.NewBuffer(cp(opts))
 	ip.DSCP = g.U8("dscp") & 0x3f
 	ip.ECN = g.U8("ecn") & 3
@@ -167,7 +174,7 @@ func (g *G) IPv4Packet(maxData int) (*protocol.IPv4, []byte, string) {
 	ip.Data = data
 	ip.Length = uint16(20 + 4*nopt + len(dwire) + g.claimMore("ipv4", 1400))
 	w := make([]byte, 20, 20+4*nopt+len(dwire))
-	w[0] = 4<<4 | ip.IHL
+	w[0] = 4<<4 | wireIHL
 	w[1] = ip.DSCP<<2 | ip.ECN
 	binary.BigEndian.PutUint16(w[2:], ip.Length)
 	binary.BigEndian.PutUint16(w[4:], ip.Id)
